@@ -54,12 +54,16 @@ def untag(v):
     return {kk: untag(vv) for kk, vv in x}
 
 
-def gen_rich_blocks(rng, fmt, tids=()):
+def gen_rich_blocks(rng, fmt, tids=(), log_rich=False):
     """blocks with meaningful payloads incl. log records; returns [(tag, payload)]"""
     strings = ['', 'msg one', 'proc', '/usr/libexec/x', 'com.apple.sub', 'cat', 'fmt %s', 'public', 'kernel']
     blocks = []
     kinds = rng.sample(['kext', 'kext', 'dyld', 'dyld', 'codes', 'codes', 'procs', 'procs', 'images', 'strings', 'strings',
                         'logs', 'logs', 'unknown'], rng.randint(0, 9))
+    if log_rich:
+        # several log sections, each with several records, other sections between and after them: whatever listing is read to its
+        # end has read all of it
+        kinds = ['strings', 'logs', rng.choice(['procs', 'kext', 'codes']), 'logs', 'logs', rng.choice(['procs', 'images'])]
     if 'logs' in kinds and 'strings' not in kinds and rng.random() < 0.85:
         kinds.insert(rng.randrange(len(kinds) + 1), 'strings')
     for k in kinds:
@@ -83,7 +87,7 @@ def gen_rich_blocks(rng, fmt, tids=()):
             blocks.append((D.TAG_LOG_STRINGS, D.plist({'StringIndex': {s: i for i, s in enumerate(st)}})))
         elif k == 'logs':
             evs = []
-            for _ in range(rng.randint(0, 3)):
+            for _ in range(rng.randint(2, 4) if log_rich else rng.randint(0, 3)):
                 _, ev = c16.gen_case(rng, fmt, rng.choice(['random', 'sparse', 'single']))[0:2] if False else (None, None)
                 st, ev = c16.gen_case(rng, fmt, rng.choice(['random', 'sparse', 'single']))
                 # clamp string indices to the 9-entry table used here
@@ -162,7 +166,7 @@ def run(ctx, model_ok):
     for i in range(n):
         g = cc.gen_v3(rng, small=True)
         g2 = cc.gen_v3(rng, small=True)
-        blocks = gen_rich_blocks(rng, fmt, tids=[t for t, _, _ in g2['threads']])
+        blocks = gen_rich_blocks(rng, fmt, tids=[t for t, _, _ in g2['threads']], log_rich=(i < 12))
         unaligned = bool(blocks) and rng.random() < 0.3
         data = D.build_v3(g2['threads'], g2['chunks'], blocks, tm_trailing=g2['tm_trailing'], last_block_unaligned=unaligned,
                           filler=rng.choice([b'', b'stack', b'xx' * 5]), junk=rng.choice([b'', b'\x00\x1d\x00', b'zz']))
